@@ -269,6 +269,41 @@ MUTATIONS = [
     ("replace: factors of the sample size swapped, guard written as 1.0 > f", "neutral", "mofun/mofun.py",
      [("k=round(replace_fraction * len(match_positions))", "k=round(len(match_positions) * replace_fraction)"),
       ("if replace_fraction < 1.0:", "if 1.0 > replace_fraction:")], "C04:5", "pass"),
+    ("unchanged (fifth batch, loop body)", "control", None, [], "C07:5", "all pass"),
+    ("replace loop: linker set by union (- -> |)", "breaking", "mofun/mofun.py",
+     [("to_delete_linker = set(match_indices[m_i]) - set(structure_index_map.values())", "to_delete_linker = set(match_indices[m_i]) | set(structure_index_map.values())")], "C07:5", "fail"),
+    ("replace loop: retained atoms deleted too (difference dropped)", "breaking", "mofun/mofun.py",
+     [("to_delete_linker = set(match_indices[m_i]) - set(structure_index_map.values())", "to_delete_linker = set(match_indices[m_i])")], "C07:5", "fail"),
+    ("replace loop: linker set minus the KEYS of the map", "breaking", "mofun/mofun.py",
+     [("set(structure_index_map.values())", "set(structure_index_map.keys())")], "C07:5", "Unsupported"),
+    ("replace loop: `or ignore…` dropped (the opt-out is ignored)", "breaking", "mofun/mofun.py",
+     [("if (to_delete.isdisjoint(to_delete_linker) or ignore_atoms_should_not_be_deleted_twice):", "if (to_delete.isdisjoint(to_delete_linker)):")], "C07:5", "fail"),
+    ("replace loop: `or` -> `and`", "breaking", "mofun/mofun.py",
+     [("if (to_delete.isdisjoint(to_delete_linker) or ignore_atoms_should_not_be_deleted_twice):", "if (to_delete.isdisjoint(to_delete_linker) and ignore_atoms_should_not_be_deleted_twice):")], "C07:5", "fail"),
+    ("replace loop: overlap never raises (else branch merges too)", "breaking", "mofun/mofun.py",
+     [("                raise AtomsShouldNotBeDeletedTwice()", "                to_delete |= set(to_delete_linker)")], "C07:5", "fail"),
+    ("replace loop: the merge is dropped on success", "breaking", "mofun/mofun.py",
+     [("                to_delete |= set(to_delete_linker)\n", "                pass\n")], "C07:5", "fail"),
+    ("replace loop: index map built for replace_all too", "breaking", "mofun/mofun.py",
+     [("            if not replace_all:\n                structure_index_map = {k:", "            if True:\n                structure_index_map = {k:")], "C07:5", "fail"),
+    ("replace loop: index map from the FIRST match for every match", "breaking", "mofun/mofun.py",
+     [("structure_index_map = {k: match_indices[m_i][v] for", "structure_index_map = {k: match_indices[0][v] for")], "C07:5", "fail"),
+    ("replace loop: index map with keys and values exchanged", "breaking", "mofun/mofun.py",
+     [("structure_index_map = {k: match_indices[m_i][v] for k,v in", "structure_index_map = {v: match_indices[m_i][k] for k,v in")], "C07:5", "fail"),
+    ("replace: empty branch deletes only the first atom of every match", "breaking", "mofun/mofun.py",
+     [("to_delete |= set([idx for match in match_indices for idx in match])", "to_delete |= set([match[0] for match in match_indices])")], "C07:5", "fail"),
+    ("replace: empty-replacement test == 0 -> == 1", "breaking", "mofun/mofun.py",
+     [("    if len(replace_pattern) == 0:", "    if len(replace_pattern) == 1:")], "C07:5", "fail"),
+    ("replace loop: operands of `or` swapped, isdisjoint the other way round, comprehension variables renamed, test `0 == len(…)`",
+     "neutral", "mofun/mofun.py",
+     [("if (to_delete.isdisjoint(to_delete_linker) or ignore_atoms_should_not_be_deleted_twice):", "if (ignore_atoms_should_not_be_deleted_twice or to_delete_linker.isdisjoint(to_delete)):"),
+      ("structure_index_map = {k: match_indices[m_i][v] for k,v in replace2search_pattern_map.items()}", "structure_index_map = {a: match_indices[m_i][b] for a,b in replace2search_pattern_map.items()}"),
+      ("to_delete |= set([idx for match in match_indices for idx in match])", "to_delete |= set([i for t in match_indices for i in t])"),
+      ("    if len(replace_pattern) == 0:", "    if 0 == len(replace_pattern):")], "C07:5", "pass"),
+    ("replace loop: |= written out, set() around the linker dropped, list() inserted", "neutral", "mofun/mofun.py",
+     [("                to_delete |= set(to_delete_linker)\n", "                to_delete = to_delete | to_delete_linker\n"),
+      ("            to_delete_linker = set(match_indices[m_i]) - set(structure_index_map.values())\n",
+       "            to_delete_linker = set(list(match_indices[m_i])) - set(structure_index_map.values())\n")], "C07:5", "pass"),
     # ---- leaving the subset
     ("max_bond_length: while loop added (outside the subset)", "unsupported", "mofun/detect_bonds.py",
      [('    """Return the maximum length of a bond between two elements"""\n', '    while False:\n        pass\n')], "C17", "Unsupported"),
